@@ -110,8 +110,9 @@ class PyPackageSearcher(AbstractSearcher):
                     'found %s, mtime %s' % (f, time.strftime("%a, %d %b %Y %H:%M:%S GMT", time.gmtime(pyTime))))
                 if pyTime >= mtime:
                     raise error.PySmiFileNotModifiedError()
-                else:
-                    raise error.PySmiFileNotFoundError('older file %s exists' % mibname, searcher=self)
+
+                debug.logger & debug.flagSearcher and debug.logger('older file %s exists' % f)
+                continue
 
             else:
                 debug.logger & debug.flagSearcher and debug.logger('bad magic in %s' % f)
